@@ -169,8 +169,9 @@ def classify_c14(d, f):
     # a seek (in read mode) to a target beyond the current end loses the position
     pos, size = 0, size0
     inw = False
+    writable = (fl & 3) != 0
     for c in pre:
-        if c["op"] in ("write", "writestring", "truncate"):
+        if c["op"] in ("write", "writestring", "truncate", "writeat") and writable and not (c["op"] == "truncate" and c.get("off", 0) < 0):
             inw = True
         if c["op"] == "seek" and not inw:
             w, o = c.get("whence", 0), c.get("off", 0)
